@@ -432,6 +432,8 @@ func (dr *DialogueRunner) RestoreAt(snapshot *Snapshot) error {
 		dr.visitedNodes = map[string]int{}
 	}
 	dr.variableSnapshot = maps.Clone(snapshot.Variables)
+	dr.lastStatement = nil
+	dr.commandErrChan = nil
 	dr.variableStorer.Clear()
 	for variable, value := range snapshot.Variables {
 		if value.Boolean != nil {
